@@ -13,10 +13,12 @@ SMALL = [
     wl("skip_stage"), wl("poll", 1), wl("transient", 1, True), wl("or_split_join"), wl("synthetic"),
     wl("synthetic", True), wl("suspend_gate"), wl("jump_self", 1), wl("jump_cycle", 2, 1), wl("jump_cycle", 2, 2),
     wl("jump_forward_diamond", 1), wl("mutex2"), wl("choice2"), wl("synthetic2"), wl("multitask_fail", 0),
-    wl("multitask_fail", 1), wl("jump_forward_multitask", 1),
+    wl("multitask_fail", 1), wl("jump_forward_multitask", 1), wl("synthetic_raise"),
 ]
 BIG = [wl("fail_branch"), wl("first_of"), wl("quorum"), wl("multi_merge"), wl("fan3"), wl("diamond_multitask"),
        wl("jump_side_fanin", 1), wl("jump_cycle", 3, 1), wl("choice3")]
+FAULT = [wl("chain3"), wl("diamond"), wl("multitask"), wl("synthetic"), wl("synthetic2"), wl("fail_mid"), wl("first_of"),
+         wl("jump_cycle", 2, 1), wl("suspend_gate"), wl("or_split_join")]
 CANCEL = [wl("diamond"), wl("multitask"), wl("fail_branch"), wl("synthetic"), wl("poll", 1)]
 
 
@@ -27,6 +29,13 @@ def jobs(tier, seed):
     for k in range(shards):
         js.append({"label": f"e3 concurrency slot: StartWorkflow(W2)||CompleteWorkflow(W1)+StartWaitingWorkflows|preemptions<={bound}|shard{k}/{shards}",
                    "slots": True, "bound": bound, "shard": [k, shards]})
+    # one transient database error ("database is locked") before any statement of any delivery of the in-order run,
+    # no crash, no recovery sweep: the engine's own retry / reschedule paths must bring the workflow to an end
+    for spec in FAULT:
+        js.append({"label": f"{spec[0]}{spec[1]}|in-order|db-error1", "wl": spec, "budget": {"fault": 1}, "in_order": True,
+                   "max_states": 400000})
+    for spec in [wl("chain3"), wl("multitask"), wl("fail_mid"), wl("poll", 1)]:
+        js.append({"label": f"{spec[0]}{spec[1]}|pause1,unpause1", "wl": spec, "budget": {"pause": 1, "unpause": 1}})
     if tier == "quick":
         for spec in SMALL:
             js.append({"label": f"{spec[0]}{spec[1]}|noack1", "wl": spec, "budget": {"noack": 1}})
@@ -34,9 +43,6 @@ def jobs(tier, seed):
             js.append({"label": f"{spec[0]}{spec[1]}|all-orders", "wl": spec, "budget": {}})
         for spec in CANCEL:
             js.append({"label": f"{spec[0]}{spec[1]}|cancel1", "wl": spec, "budget": {"cancel": 1}})
-        for spec in [wl("chain3"), wl("multitask"), wl("fail_mid"), wl("poll", 1)]:
-            js.append({"label": f"{spec[0]}{spec[1]}|pause1,unpause1", "wl": spec, "budget": {"pause": 1, "unpause": 1}})
-
     else:
         for spec in SMALL + BIG:
             js.append({"label": f"{spec[0]}{spec[1]}|noack1", "wl": spec, "budget": {"noack": 1}, "max_states": 300000})
@@ -49,8 +55,11 @@ def jobs(tier, seed):
 def build(job):
     w = world()
     workload = make_workload(job["wl"])
+    from vlib.e1jobs import in_order_filter
+
     return Explorer(w, workload, [QuiescenceMonitor(fault_free_dlq=True)], job.get("budget"),
-                    max_states=job.get("max_states", 150000), time_cap=job.get("time_cap", 1500))
+                    max_states=job.get("max_states", 150000), time_cap=job.get("time_cap", 1500),
+                    actions_filter=in_order_filter if job.get("in_order") else None)
 
 
 def run_job(job):
@@ -60,6 +69,17 @@ def run_job(job):
         return slots_job(job)
     ex = build(job).run()
     res = result_from(ex, "e1")
+    if job.get("in_order"):
+        # name the site of the injected error: message type and what the faulted delivery left behind
+        for v in res["violations"]:
+            f = next((t for t in v.get("trace", []) if t.startswith("df")), None)
+            if f is None:
+                continue
+            _, mtype, *rest = f.split(":")
+            lab = rest[0] if rest else ""
+            after = (v.get("stages") or {}).get(lab)
+            where = "before-claim" if (mtype == "StartStage" and after == "NOT_STARTED") else str(after)
+            v["signature"] = f"{v['signature']}@db-error:{mtype}:{where}"
     res["job_spec"] = job
     return res
 
